@@ -236,11 +236,6 @@ func anyUnaddressable(segs []string) bool {
 	return segs[len(segs)-1] == "..." // a trailing "..." is the append-elements marker, not a key
 }
 
-// goSpelling: does Go print this float the way JSON does?
-func sameSpelling(num string) bool {
-	f, err := strconv.ParseFloat(num, 64)
-	return err == nil && strconv.FormatFloat(f, 'g', -1, 64) == num
-}
 
 // resolve turns a request path into segments below the root map {"config": cfg}, resolving
 // /id/<id>/… through the tagged objects of cfg. ok=false: the oracle has no opinion.
@@ -261,7 +256,7 @@ func resolve(path string, cfg any) (segs []string, ell bool, ok bool) {
 			hit = append(hit, t)
 		}
 	}
-	if len(hit) != 1 || anyUnaddressable(hit[0].segs) || (hit[0].num && !sameSpelling(hit[0].id)) {
+	if len(hit) != 1 || anyUnaddressable(hit[0].segs) {
 		return nil, false, false
 	}
 	rest := strings.Trim(strings.Join(parts[3:], "/"), "/")
@@ -475,8 +470,6 @@ func checkIDs(cur observation, fails *[]core.Failure, tags map[string]bool) {
 			fail(fails, "id-on-root-object-redirects", "%s", what)
 		case anyUnaddressable(t.segs):
 			fail(fails, "id-below-unaddressable-key", "%s", what)
-		case t.num && !sameSpelling(t.id) && r.status == 404:
-			fail(fails, "id-number-exponent-spelling", "%s", what)
 		default:
 			fail(fails, "id-does-not-resolve", "%s", what)
 		}
